@@ -29,6 +29,9 @@ for d in sorted(glob.glob(root + '/seeded/C*/')):
         elif ex == '0': det.append('%s: not in %ss' % (prop, wall))
         else: det.append('%s: exit %s' % (prop, ex))
     note = meta.get('note', '')
+    sh = meta.get('status_at_head', {})
+    if sh.get('status') == 'neutralised':
+        note = ('NEUTRALISED at %s: the demonstration no longer fails with the change (a later fix: commit removed the path) ' % sh.get('repo_head')) + note
     out.append('| %s: %s | %s | %s | %s%s |' % (mid, meta['change'].replace('|', '/'), meta['property'], meta['needs_to_manifest'].replace('|', '/'), '; '.join(det) or 'not run', (' - ' + note) if note else ''))
 print('\n'.join(out))
 print()
